@@ -8,7 +8,7 @@ import json, os, re, subprocess, sys, time, shutil, random, hashlib
 
 VERIF = os.path.dirname(os.path.dirname(os.path.abspath(__file__)))
 SPEC = os.path.join(VERIF, "spec")
-HARNESS = os.path.join(VERIF, "harness")
+HARNESS = os.environ.get("VERIF_HARNESS", os.path.join(VERIF, "harness"))
 RUNS = os.path.join(VERIF, "runs")
 EVID = os.path.join(VERIF, "evidence")
 TLC_WORKERS = int(os.environ.get("VERIF_TLC_WORKERS", "8"))
